@@ -3,7 +3,7 @@
    the constraint manager's constructor, the stats accessor and the exception
    classes.  Evaluated on Gen/Skeleton.v in Props/C10.v.  Definitions only. *)
 From Coq Require Import String List Bool Arith.
-From SK Require Import Model.Skel Model.Lifecycle.
+From SK Require Import Model.Skel Model.Exn Model.Lifecycle.
 Import ListNotations.
 
 (* ---- executing a flat skeleton whose `if`s all test ONE boolean [b]:
@@ -21,6 +21,7 @@ Fixpoint run_if (b : bool) (m : ifmode) (sk : list ev) : list string :=
           | Else => run_if b (SkipToEnd 0) r
           | IfE => run_if b Exec r
           | Call g => g :: run_if b Exec r
+          | Ret => []                      (* early return *)
           | _ => run_if b Exec r
           end
       | SkipToElse d =>
@@ -84,3 +85,24 @@ Definition plain_exc_init (sk : list ev) : bool :=
   negb (mem_str "super_init" (calls_of sk))
   && negb (mem_str "args" (writes_of sk))
   && mem_str "msg" (writes_of sk).
+
+(* ---- an exception of class [x] raised by call [g] reaches the handler
+   table of the OUTERMOST try: no try statement in between whose body
+   contains the call has a handler that would catch it first.
+   ([guarded_events] lists, per event, the handler classes of the enclosing
+   try BODIES, innermost first.) *)
+Definition reaches_outer_table (g x : string) (sk : list ev) : bool :=
+  let occ := filter (fun p => ev_is (Call g) (fst p)) (guarded_events [] sk) in
+  negb (Nat.eqb (length occ) 0) &&
+  forallb (fun p =>
+             match rev (snd p) with
+             | [] => false                      (* not inside any try *)
+             | _ :: inner => negb (caught_by x inner)
+             end) occ.
+
+(* ---- only text goes into a FileSearchException: whatever the exception
+   object holds is pickled when a worker hands its failure back to the
+   parent, and text always pickles *)
+Definition only_text_raised (sites : list (string * list string)) : bool :=
+  negb (Nat.eqb (length sites) 0) &&
+  forallb (fun s => forallb (String.eqb "str") (snd s)) sites.
